@@ -113,7 +113,7 @@ func main() {
 		Level:    "exploration",
 		Rule: "decoder half: every string over the 18 protocol-significant bytes `" + alphabet + "` up to length 5 (quick) / 6 (thorough), plus templates (attachment counts, placeholder num values at top level / in a map / in a struct field / nested / in arrays, " +
 			"every truncation of valid packets, 20-25 digit ack ids, packet types 3,4,7-9 and header shapes the alphabet cannot spell), each as the first frame of a fresh parser; a packet that asks for attachments is completed with every combination of {binary, text} frames up to 2 " +
-			"and, with maxAttachments=2, must be refused or complete within 2 frames; every finished packet is decoded against 12 handler signature families (sio.Binary, map[string]any, any, struct with a Binary field, no args; map[string]Binary, map[string]*Binary, struct with a map[string]Binary field, pointer to struct, []Binary, []any, (Binary, Binary); CONNECT also *json.RawMessage) through one decode closure. " +
+			"and, with maxAttachments=2, must be refused or complete within 2 frames; every finished packet is decoded against 14 handler signature families (sio.Binary, map[string]any, any, struct with a Binary field, no args; map[string]Binary, map[string]*Binary, struct with a map[string]Binary field, pointer to struct, []Binary, []any, (Binary, Binary), struct / pointer to struct with nil-able pointer and interface fields in front; CONNECT also *json.RawMessage) through one decode closure. " +
 			"An evaluation is one (frame sequence, family) pair or one frame sequence that yields no packet, or one execution of the process half. distinct_nontrivial = distinct first frames that got past the first-byte check (decoded, asked for attachments, or failed later) + deviating schedules of the process half. " +
 			"process half: the shortest input of every decoder outcome class plus hand-picked inputs, sent to a live sio.Server over a harness-implemented eio socket (ACKs also with a matching outstanding emit per callback family, CONNECTs also as first packet), and a selection sent by a live server to a live Go client over the in-process polling link; all schedules with at most 1 (quick) / 2 (thorough) deviations after the connection set-up",
 		Scenarios: scenarios,
